@@ -17,6 +17,7 @@ import PyttbModel.Lemmas.MLTtt
 import PyttbModel.Lemmas.MLMttkrps
 import PyttbModel.Lemmas.MLMask
 import PyttbModel.Lemmas.MLTuckerSparseCore
+import PyttbModel.Lemmas.MLReconstruct
 import PyttbModel.Props.C02KT
 namespace Pyttb
 
@@ -424,6 +425,38 @@ theorem C02_ttv_tucker_sparse_core [CommSemiring α] [DecidableEq α] (T : Ttens
 /-- A Tucker tensor with a sparse core denotes what the one with the expanded core denotes. -/
 theorem C02_tucker_sparse_core_den [CommSemiring α] [DecidableEq α] (T : TtensorS α) (hS : T.core.WF) (i : List Nat) :
     MLK.tsGet T i = (⟨T.core.full, T.factors⟩ : Ttensor α).get i := MLK.tsGet_eq_full T hS i
+
+/-- `ttensor.reconstruct(samples, modes)` for distinct modes (listed in any order) with one usable
+sample each — a non-empty vector of row indices (repeats allowed) or a non-empty mixing matrix with one
+column per row of the factor; the factors are rectangular: the sampled factors are formed (rows gathered /
+matrix multiplied on) and the Tucker tensor is expanded. The result is the multi-mode product of `⟦T⟧` with
+the selection / mixing matrices `S_d` of the samples (`MLK.sampleEntry`). -/
+theorem C02_reconstruct_tucker [CommSemiring α] (T : Ttensor α) (hT : ML.TuckerWF T) (hN : 1 ≤ T.factors.length)
+    (hrect : ∀ d, d < T.factors.length → ∀ row ∈ T.factors.getD d [], row.length = T.core.shape.getD d 0)
+    (ss : List (ReconSample α)) (md : List Nat) (hl : ss.length = md.length) (hnd : md.Nodup)
+    (hlt : ∀ d ∈ md, d < T.factors.length) (hok : ∀ p ∈ ss.zip md, MLK.SampleOk T p.2 p.1)
+    (S : Nat → Nat → Nat → α) (hS : ∀ p ∈ ss.zip md, ∀ a x, S p.2 a x = MLK.sampleEntry p.1 a x) :
+    ∃ D, T.reconstruct (some ss) (some md) = .ok D ∧ D.WF ∧ D.shape.length = T.factors.length ∧
+      ∀ i, InBounds D.shape i → D.get i = Spec.ttm T.den md S i :=
+  MLK.tucker_reconstruct_spec T hT hN hrect ss md hl hnd hlt hok S hS
+
+/-- Replacing the factors of some modes by `S_d·U_d` and expanding is the multi-mode product of the
+Tucker tensor with the `S_d` (the step shared by `reconstruct` and `ttm` followed by `full`). -/
+theorem C02_tucker_refactor_full [CommSemiring α] (T : Ttensor α) (hT : ML.TuckerWF T) (hN : 1 ≤ T.factors.length)
+    (fs : List (Mat α)) (hfl : fs.length = T.factors.length)
+    (sel : List Nat) (hnd : sel.Nodup) (hlt : ∀ d ∈ sel, d < T.factors.length)
+    (S : Nat → Nat → Nat → α)
+    (hkeep : ∀ d, d < T.factors.length → d ∉ sel → fs.getD d [] = T.factors.getD d [])
+    (hcols : ∀ d ∈ sel, (fs.getD d []).ncols = T.core.shape.getD d 0)
+    (hnew : ∀ d ∈ sel, ∀ a c, a < (fs.getD d []).length → c < T.core.shape.getD d 0 →
+      (fs.getD d []).get a c = sumRange (T.shape.getD d 0) fun x => (T.factors.getD d []).get x c * S d a x) :
+    ∃ D, Ttensor.full ⟨T.core, fs⟩ = .ok D ∧ D.shape = fs.map List.length ∧ D.WF ∧
+      ∀ i, InBounds D.shape i → D.get i = Spec.ttm T.den sel S i :=
+  MLK.tucker_refactor_full T hT hN fs hfl sel hnd hlt S hkeep hcols hnew
+
+/-- `reconstruct()` without arguments is `full()`; `modes` without `samples` is rejected. -/
+theorem C02_reconstruct_trivial [Add α] [Mul α] [Zero α] (T : Ttensor α) (md : List Nat) :
+    T.reconstruct none none = T.full ∧ T.reconstruct none (some md) = .error .reject := ⟨rfl, rfl⟩
 
 /-! ### non-vacuity -/
 
